@@ -3,7 +3,7 @@
    script lists regenerated from ctrl/qryn/sql/*.sql). *)
 From Coq Require Import List String NArith ZArith Bool Arith.
 From Qryn Require Import model.Migrate model.MigrateRepair proofs.MigrateProofs proofs.MigrateClusterProofs proofs.MigrateConcProofs
-  proofs.MigrateClassProofs proofs.MigrateClassExact proofs.MigrateSoloProofs proofs.MigrateRepairProofs proofs.MigrateBootProofs proofs.MigrateShardProofs gen.GenScripts proofs.MigrateConcrete.
+  proofs.MigrateClassProofs proofs.MigrateClassExact proofs.MigrateSoloProofs proofs.MigrateRepairProofs proofs.MigrateBootProofs proofs.MigrateShardProofs gen.GenScripts proofs.MigrateConcrete proofs.MigrateAnyHostProofs.
 Import ListNotations.
 Open Scope nat_scope.
 
@@ -311,3 +311,50 @@ Theorem noop_when_current_through_any_host :
   d_cat d1 = d_cat d /\ d_vers d1 = d_vers d /\ filter is_script_event (r_log m) = [].
 Proof. exact noop_through_any_host. Qed.
 Print Assumptions noop_when_current_through_any_host.
+
+(* Round 8: histories in which EVERY start may reach the cluster through a different host (multi_run_at: a list of
+   (connected host, injected outcomes) per start; a load-balanced address or several configured nodes).  For ANY script
+   lists and ON CLUSTER flags, any configuration, any host catalogues to start from (any number of hosts), any
+   failures or partially completed ON CLUSTER statements: the monitor accepts the whole call log and every recorded
+   version lies between what the log recorded and what it completed.  "A version is never recorded for a script that
+   did not complete; scripts in file order, none skipped; nothing recorded runs again" does not depend on the host a
+   start is connected to (was: stated for starts that all go through host 0). *)
+Theorem version_never_ahead_through_any_hosts :
+  forall (scripts : stream -> list stmt) (oncl : stream -> list bool) (c : cfg) (runs : list (nat * list outcome)) (hs : ccat cat),
+  exists m, mon_run mst0 (snd (multi_run_at scripts oncl c runs (db0 (ccat cat) hs))) = Some m /\
+            forall k, m_rec m k <= d_vers (fst (multi_run_at scripts oncl c runs (db0 (ccat cat) hs))) k /\
+                      d_vers (fst (multi_run_at scripts oncl c runs (db0 (ccat cat) hs))) k <= m_app m k.
+Proof. exact never_ahead_any_host. Qed.
+Print Assumptions version_never_ahead_through_any_hosts.
+
+(* The repository's scripts, 1 + n hosts, every start through the SAME host j -- whichever j (guard of the statement
+   below): after any failures, partial applications, restarts, the next undisturbed start through j returns nil, the
+   hosts end in the schema of the uninterrupted run with hosts 0 and j exchanged, every version is recorded, and a
+   further start through ANY host j' under any failures runs no script.  (Example any_host_examples: 3 hosts, j = 2.) *)
+Theorem rerun_converges_scripts_through_one_host : forall (c : cfg) (n j : nat) (runs : list (list outcome)),
+  let d := fst (multi_run_at gen_scripts gen_oncluster c (map (fun os => (j, os)) runs) (db0 (ccat cat) (hosts0 (S n)))) in
+  let m := fst (start_at gen_scripts gen_oncluster c j [] d) in
+  let d1 := snd (start_at gen_scripts gen_oncluster c j [] d) in
+  r_ok m = true /\
+  d_cat d1 = swap_hosts j (d_cat (expected_final gen_scripts gen_oncluster c (S n))) /\
+  (forall k, In k (streams_of c) -> d_vers d1 k = List.length (gen_scripts k)) /\
+  (forall j' os, filter is_script_event (r_log (fst (start_at gen_scripts gen_oncluster c j' os d1))) = []).
+Proof. exact gen_converges_same_host. Qed.
+Print Assumptions rerun_converges_scripts_through_one_host.
+
+(* The guard cannot be dropped (finding resumed-start-through-another-host): cluster name set, plain engines, 2 hosts.
+   A start through host 0 is cut off after log.sql #24 (ALTER TABLE .. ADD COLUMN type_v2 .. ALIAS, sent WITHOUT ON
+   CLUSTER) and its version row; the next start goes through host 1 and completes.  The monitor accepts the whole log,
+   the following start (through host 1) returns nil and runs no script, every version is recorded -- and the hosts'
+   schemas equal those of NO uninterrupted run, through whichever host j' it is made: "ends in the same schema as an
+   uninterrupted run" fails when a RESUMED start reaches the cluster through another host. *)
+Theorem resumed_start_through_another_host_refuted :
+  exists (c : cfg) (runs : list (nat * list outcome)) (j : nat),
+    let r := multi_run_at gen_scripts gen_oncluster c runs (db0 (ccat cat) (hosts0 2)) in
+    let s := start_at gen_scripts gen_oncluster c j [] (fst r) in
+    mon_ok (snd r) = true /\ r_ok (fst s) = true /\
+    (forall k, In k (streams_of c) -> d_vers (snd s) k = List.length (gen_scripts k)) /\
+    filter is_script_event (r_log (fst s)) = [] /\
+    forall j', list_eqb cat_eqb (d_cat (snd s)) (swap_hosts j' (d_cat (expected_final gen_scripts gen_oncluster c 2))) = false.
+Proof. exact resumed_elsewhere_witness. Qed.
+Print Assumptions resumed_start_through_another_host_refuted.
